@@ -679,6 +679,7 @@ func secondClose(ctx *core.Ctx, ci int, provName, coding string) {
 	e2 := w.Close()
 	_, r2 := l.Counts()
 	_, e3 := w.Write([]byte("late"))
+	w.Flush() // any use of the closed writer must leave the released compressor alone (trip-wire)
 	ctx.Eval(1)
 	if e1 != nil || e2 == nil || r1 != 1 || r2 != 1 {
 		ctx.Violation(ci, "c13:second-close:"+provName, fmt.Sprintf("first Close err=%v, second Close err=%v, releases after first=%d after second=%d", e1, e2, r1, r2), doc)
